@@ -49,6 +49,7 @@ def handle (c obs : String) : String × Bool × String :=
           | some f => if isPrefixStr o.delivered f then (obs, true, "")
                       else (obs, false, s!"spec-only: delivered {o.delivered} is not a prefix of the fault-free {f}")
           | none => (obs, true, "")
+    | some _, some _ => (obs, true, "")   -- histories of several materialisations: C01 / C18 business
     | _, _ => (obs, false, "unparsable observation")
   else
   match parseCase c with
